@@ -43,8 +43,8 @@ COMPONENTS = {
              "ad_afqmc.sampling.sampler.propagate_phaseless and AD entry points", "ad_afqmc.driver.afqmc", "ad_afqmc.wavefunctions rhf/uhf/noci/uhf_cpmc/ghf_cpmc", "jax / XLA CPU"],
     "stub": ["mpi4py.MPI -> SimComm/SimWorld", "wall clock", "stdout"],
 }
-REQUIRED_PROBES = {"quick": ["walker_killed", "fault_fired", "nonfinite_inside_step", "cpmc_runs", "driver_runs", "sr_after_kill"],
-                   "thorough": ["walker_killed", "fault_fired", "nonfinite_inside_step", "cpmc_runs", "driver_runs", "sr_after_kill", "all_but_one_dead"]}
+REQUIRED_PROBES = {"quick": ["walker_killed", "fault_fired", "nonfinite_inside_step", "cpmc_runs", "driver_runs", "sr_after_kill", "rank_extinct_while_others_alive"],
+                   "thorough": ["walker_killed", "fault_fired", "nonfinite_inside_step", "cpmc_runs", "driver_runs", "sr_after_kill", "all_but_one_dead", "rank_extinct_while_others_alive"]}
 
 PH = ["propagator_restricted", "propagator_unrestricted"]
 CPMC = ["propagator_cpmc", "propagator_cpmc_slow", "propagator_cpmc_nn", "propagator_cpmc_nn_slow", "propagator_cpmc_continuous"]
@@ -127,7 +127,19 @@ def gen_cfg(seed, index, tier):
         per = m["n_prop_steps"] * m["n_ene_blocks"] * m["n_sr_blocks"]
         m["faults"] = _gen_faults(rng, m, per * m["n_calls"])
     else:
-        m["faults_by_rank"] = {str(r): _gen_faults(rng, m, 50 * m["n_sr_blocks_eql"] + 6) for r in range(m["R"])}
+        m["faults_by_rank"] = {str(r): _gen_faults(rng, m, 50 * m["n_sr_blocks_eql"] + 6, nslots=4) for r in range(m["R"])}
+        # "a node loses its whole population": every walker of one rank receives an
+        # overflowing field inside the first sampling block; the other ranks get no fault
+        m["kill_rank"] = None
+        if m["R"] >= 2 and rng.random() < 0.4:
+            r = rng.randrange(m["R"])
+            eql = 50 * m["n_sr_blocks_eql"] * m["n_ene_blocks_eql"] * m["n_eql"]
+            per = m["n_prop_steps"] * m["n_ene_blocks"] * m["n_sr_blocks"]
+            step = eql + rng.randrange(per)
+            ncomp = m.get("nchol") or m.get("n_sites")
+            m["kill_rank"] = r
+            m["faults_by_rank"] = {str(q): [] for q in range(m["R"])}
+            m["faults_by_rank"][str(r)] = [dict(step=step, walker=w, comp=rng.randrange(ncomp), value=1e100, mode=0) for w in range(m["n_walkers"])]
         m["sched"] = {"policy": rng.choice(["random", "sticky", "straggler", "reverse"]), "straggler": rng.randrange(3), "p_rendezvous": rng.choice([0.0, 0.5, 1.0]), "p_clock_jump": 0.0}
     return m
 
@@ -392,6 +404,20 @@ def _exec_driver(cfg, ctx):
             if float(np.sum(w)) > 0 and not np.isfinite(shift):
                 inv.bad("weights.shift_not_finite_while_alive", f"block {n} rank {r}", shift=shift, weights=w.tolist(), e_estimate=float(np.asarray(pd["e_estimate"])),
                         total_weight_all_ranks_previous_block=total_alive_prev)
+        # the running estimate that every rank's shift is reset to stays finite while any
+        # walker in the world is alive (a rank that lost its population must not poison it)
+        if total_alive_prev is not None and total_alive_prev > 0:
+            for r in range(R):
+                ee = float(np.asarray(out["pickles"][r][n]["e_estimate"]))
+                if not np.isfinite(ee):
+                    inv.bad("weights.running_estimate_not_finite_while_walkers_alive", f"block {n} rank {r}", e_estimate=ee,
+                            total_weight_all_ranks_previous_block=total_alive_prev, killed_rank=cfg.get("kill_rank"),
+                            weights_previous_block=[np.asarray(out["pickles"][q][n - 1]["weights"]).tolist() for q in range(R)])
+                    break
+        if cfg.get("kill_rank") is not None and n == 0:
+            wk = np.asarray(out["pickles"][cfg["kill_rank"]][0]["weights"])
+            if float(np.sum(wk)) == 0.0 and alive > 0:
+                ctx.probe("rank_extinct_while_others_alive", 1)
         total_alive_prev = alive
     for r in range(R):
         mon = lab.read_monitors(out["pickles"][r][-1])
